@@ -164,9 +164,12 @@ type runOut struct {
 
 type reader = *schema.StreamReader[tok]
 
-func runWriter(sw *schema.StreamWriter[tok], s *srcSpec, r *mon.Rand, lg *wlog, stamp func() uint64) {
+func runWriter(sw *schema.StreamWriter[tok], s *srcSpec, gate <-chan struct{}, r *mon.Rand, lg *wlog, stamp func() uint64) {
 	lg.pan = mon.Safe(func() {
 		lg.op = "Send"
+		if gate != nil {
+			<-gate // scripted to start only after the readers derived from this stream were closed
+		}
 		for i, k := range s.Items {
 			pace(r, s.Pace)
 			var chunk tok
@@ -266,6 +269,7 @@ func runTree(t *tree, sc schedule, rr *mon.Rand) *runOut {
 	var late []launch
 	readers := make([]reader, len(m.readers))
 	writers := map[int32]*schema.StreamWriter[tok]{}
+	gates := map[int32]chan struct{}{}
 
 	out.buildPan = mon.Safe(func() {
 		for oi := range t.Ops {
@@ -278,11 +282,16 @@ func runTree(t *tree, sc schedule, rr *mon.Rand) *runOut {
 				lg := &wlog{}
 				out.wl[op.Src.ID] = lg
 				s, wr := op.Src, mon.NewRand(rr.Uint64())
+				var gate chan struct{}
+				if s.AfterEnds && !sc.Quiet {
+					gate = make(chan struct{})
+					gates[s.ID] = gate
+				}
 				wg.Add(1)
 				start := func() {
 					go func() {
 						defer wg.Done()
-						runWriter(sw, s, wr, lg, stamp)
+						runWriter(sw, s, gate, wr, lg, stamp)
 					}()
 				}
 				if s.Early {
@@ -334,16 +343,32 @@ func runTree(t *tree, sc schedule, rr *mon.Rand) *runOut {
 		return out
 	}
 
+	// gate of a late writer: closed when all readers derived from its stream are done
+	endGates := make([][]*sync.WaitGroup, len(t.Ends))
+	for id, gate := range gates {
+		dwg := &sync.WaitGroup{}
+		dwg.Add(len(m.derived[id]))
+		for _, ei := range m.derived[id] {
+			endGates[ei] = append(endGates[ei], dwg)
+		}
+		go func() { dwg.Wait(); close(gate) }()
+	}
 	out.el = make([]*elog, len(t.Ends))
 	for i := range t.Ends {
 		e, lg, er := &t.Ends[i], &elog{}, mon.NewRand(rr.Uint64())
 		out.el[i] = lg
 		rd := readers[e.Reader]
 		limit := m.readers[e.Reader].total()
+		mine := endGates[i]
 		wg.Add(1)
 		late = append(late, func() {
 			go func() {
 				defer wg.Done()
+				defer func() {
+					for _, d := range mine {
+						d.Done()
+					}
+				}()
 				runEnd(rd, e, limit, er, lg, stamp)
 			}()
 		})
